@@ -3,6 +3,7 @@
 package nsqd
 
 import (
+	"bufio"
 	"time"
 
 	"github.com/nsqio/nsq/internal/verifrt"
@@ -142,3 +143,54 @@ func VerifC08_EmptyVsAnswer() {
 // is served again (the pump is woken), under every short history of consumer events that contains
 // the Empty (shared with C03).
 func VerifC08_EmptyKeepsSubscriptionsServed() { verifPumpHistory() }
+
+// Answers racing the timeout scan (shared with C02): no finished or discarded message is put
+// back, counters stay exact.
+func VerifC08_AnswerVsScan() { verifAnswerVsScan() }
+
+// A consumer that goes away - with or without a CLS first - leaves its channel: the real command
+// loop (IOLoop with its delivery pump) reads SUB [CLS] and then the end of the connection. The
+// channel no longer lists the consumer, and an ephemeral channel (and then its ephemeral topic)
+// disappears.
+func VerifC08_DisconnectRemovesTheConsumer() {
+	o := verifOpts()
+	n := verifShellNSQD(o)
+	verifrt.StubNative("(*github.com/nsqio/nsq/nsqd.NSQD).Notify", verifNotifyNop)
+	verifrt.Preemptions(0)
+	if verifrt.Symbolic() {
+		verifTickC = make(chan time.Time)
+		verifrt.Stub("time.NewTicker", verifNewTickerStub)
+		verifrt.Stub("(*time.Ticker).Stop", verifTickerStopStub)
+	}
+	ephemeral := verifrt.Choice("ephemeral", 2) == 1
+	withCLS := verifrt.Choice("cls-before-disconnect", 2) == 1
+	topicName, chanName := "t", "c"
+	if ephemeral {
+		topicName, chanName = "t#ephemeral", "c#ephemeral"
+	}
+	wire := []byte("SUB " + topicName + " " + chanName + "\n")
+	if withCLS {
+		wire = append(wire, []byte("CLS\n")...)
+	}
+	cl, conn := verifClient(n, 1, wire)
+	conn.in.err = errEOFVerif
+	cl.Reader = bufio.NewReaderSize(conn, 64)
+	p := &protocolV2{nsqd: n}
+	err := p.IOLoop(cl)
+	verifrt.Rest()
+	verifrt.Assert(err == nil, "clean-disconnect")
+	ch := cl.Channel
+	verifrt.Assert(ch != nil, "sub-attached-the-consumer")
+	if ch != nil {
+		_, still := ch.clients[cl.ID]
+		verifrt.Assert(!still || ch.Exiting(), "disconnected-consumer-is-no-longer-on-the-channel")
+	}
+	t := n.topicMap[topicName]
+	if ephemeral {
+		verifrt.Assert(t == nil || len(t.channelMap) == 0, "ephemeral-channel-disappears-with-its-last-consumer")
+		verifrt.Assert(t == nil, "ephemeral-topic-disappears-with-its-last-channel")
+	} else {
+		verifrt.Assert(t != nil && t.channelMap[chanName] != nil, "durable-channel-stays")
+	}
+	verifrt.Reach("left-after-cls", withCLS && ephemeral)
+}
